@@ -1,0 +1,59 @@
+// Package verifhook holds the verification hooks of the /verif framework.
+//
+// The functions Workers, Parallel, Range and Yield are called from the parallel
+// sections of the codec.  Without the build tag "verif" (the default) they are
+// empty, trivially inlinable functions (hook_off.go) and the code behaves
+// exactly as if the calls were absent.  With the tag (hook_on.go) they consult
+// override tables and callbacks that the verification harness sets through the
+// exported setters (re-exported for it from package webp, verif_export_conc.go).
+package verifhook
+
+// Call sites that read runtime.GOMAXPROCS (one constant per site).
+const (
+	SiteLossyImportY          = 0  // internal/lossy/encode.go importImage, Y plane rows
+	SiteLossyImportUV         = 1  // internal/lossy/encode.go importImage, UV row pairs
+	SiteLossyUseParallel      = 2  // internal/lossy/encode.go EncodeFrame, useParallel (algorithm choice)
+	SiteLossyEncodeParallel   = 3  // internal/lossy/encode_parallel.go encodeFrameParallel, row workers
+	SiteLossyComputeAlphas    = 4  // internal/lossy/encode_analysis.go computeAlphas
+	SiteLosslessHashChain     = 5  // internal/lossless/hashchain.go Fill (algorithm choice) / fillParallel
+	SiteLosslessPredictor     = 6  // internal/lossless/encode_predictor.go ResidualImage phase 1
+	SiteLosslessCrossColor    = 7  // internal/lossless/encode_predictor.go ColorSpaceTransform
+	SiteLosslessHistoRemap    = 8  // internal/lossless/encode_histogram.go histogramRemap
+	SiteLosslessHistoCost     = 9  // internal/lossless/encode_histogram.go parallelComputeHistogramCost
+	SiteLosslessInvCrossColor = 10 // internal/lossless/decode_transform.go inverseTransform (CrossColor)
+	SiteLosslessArgbToNRGBA   = 11 // internal/lossless/decode.go argbToNRGBA
+	SiteAnimDecodeFrames      = 12 // animation/animation.go DecodeFramesParallel
+	NumSites                  = 13
+)
+
+// SiteNames lists the sites in constant order.
+var SiteNames = [NumSites]string{
+	"lossy.importImage.Y",
+	"lossy.importImage.UV",
+	"lossy.EncodeFrame.useParallel",
+	"lossy.encodeFrameParallel",
+	"lossy.computeAlphas",
+	"lossless.hashchain.Fill",
+	"lossless.ResidualImage",
+	"lossless.ColorSpaceTransform",
+	"lossless.histogramRemap",
+	"lossless.parallelComputeHistogramCost",
+	"lossless.inverseTransform.CrossColor",
+	"lossless.argbToNRGBA",
+	"animation.DecodeFramesParallel",
+}
+
+// Points of the row-pipelined lossy encoder at which Yield is called.
+const (
+	PointClaim      = 0 // a worker drew ticket y from nextRow (x = mbH; y >= mbH means the worker exits)
+	PointMBBegin    = 1 // encodeRow is about to process MB (y, x) (before waiting on the row above)
+	PointWaitEnter  = 2 // waitFor(y, needed) entered (x = needed)
+	PointWaitSlow   = 3 // waitFor fast path failed, before waiters.Add(1) (x = needed)
+	PointCondWait   = 4 // holding the row mutex, done < needed, about to cond.Wait (x = needed)
+	PointMBStart    = 5 // the wait on the row above returned; contexts of MB (y, x) are about to be read
+	PointExport     = 6 // MB (y, x) is reconstructed; shared top context is about to be written
+	PointSignal     = 7 // signal(y, done) entered, before done.Store (x = done)
+	PointSignalSlow = 8 // signal saw waiters > 0, before Lock/Unlock/Broadcast (x = done)
+	PointRecordRow  = 9 // Phase B: the wait for row y returned, its tokens are about to be recorded
+	NumPoints       = 10
+)
